@@ -1,5 +1,5 @@
 """Property -> rules wiring.  Each function returns kwargs for Ctx.finish()."""
-from . import control, history, descent, warm, degenerate, feasible, plumb, matrix, storage, formulas, penalgebra, misc
+from . import control, history, descent, warm, degenerate, feasible, plumb, matrix, storage, formulas, penalgebra, misc, extents
 
 TB = ["CPython ast", "role seeds: positional parameters of BaseSolver._solve and the "
       "fixed slot-method names of the datafit/penalty interface"]
@@ -267,7 +267,36 @@ def c14(A, ctx, tier):
                 trusted_base=TBA)
 
 
+def c15(A, ctx, tier):
+    extents.r_idx(A, ctx, dict(floor=150, floor_typed=400))
+    descent.r_step(A, ctx, dict(floor=12), rule="R-STEP-KIND")
+    misc.r_grporder(A, ctx, dict(floor=6))
+    ctx.assume("equivariance of converged solutions and scaling laws are numerical; decided is "
+               "the necessary condition that no subscript mixes a working-set position, a "
+               "feature, a group, a task or a sample index, and that group specifications keep "
+               "the caller's order")
+    return dict(explanation="index-kind inference over all kernels, datafits and penalties: "
+                "every typed subscript uses an index of the axis' own domain; the coordinate "
+                "handed to a prox is a feature/group, never a position; grp_converter preserves "
+                "order", trusted_base=TB + ["attribute-domain table and slot signatures of sa/kinds.py"])
+
+
+def c20(A, ctx, tier):
+    extents.r_idx(A, ctx, dict(floor=150, floor_typed=400))
+    extents.r_slotext(A, ctx, dict(floor=12))
+    extents.r_slice(A, ctx, dict(floor=12))
+    extents.r_bounds(A, ctx, dict(floor=30))
+    ctx.assume("value-dependent indices (entries of user-supplied grp_indices / CSC indices being "
+               "in range) are an input contract and not decided")
+    return dict(explanation="extent discipline of compiled kernels: index kinds match axis "
+                "domains; the array returned by get_lipschitz ranges over the domain the solver "
+                "indexes it by, for every accepted datafit; a[:-1] / a[-1] on coefficient arrays "
+                "only under the intercept flag; offset subscripts of pointer arrays stay below "
+                "their length", trusted_base=TB + ["attribute-domain table and slot signatures of sa/kinds.py"])
+
+
 PROPS = {
+    "C15": c15, "C20": c20,
     "C06": c06, "C07": c07, "C08": c08, "C09": c09, "C14": c14,
     "C10": c10, "C13": c13, "C16": c16,
     "C11": c11, "C12": c12, "C18": c18,
